@@ -35,6 +35,7 @@ func splice(s []int, i, del int, ins []int) []int {
 func main() {
 	ev.GuardFor("C12")
 	r := ev.Start("C12")
+	defer r.FinishOnPanic()
 	e := &enum.E{R: r}
 	maxLen := ev.Pick(r, 6, 9)
 	spares := ev.Pick(r, []int{0, 1, 2, 5}, []int{0, 1, 2, 3, 5, 8, 17})
